@@ -604,7 +604,7 @@ func (r *Runner) resolveTildeUnaryExpression(v interface{}) (interface{}, error)
 	switch n := v.(type) {
 	case *decimal.Big:
 		iv, _ := n.Int64()
-		return newDecimalBig().SetUint64(uint64(iv)), nil
+		return newDecimalBig().SetMantScale(^iv, 0), nil
 	default:
 		return nil, fmt.Errorf("unary expressin '~' not support type %T", v)
 	}
